@@ -458,18 +458,21 @@ class Queue(Greenlet):
             self.active_ids.add(id)
             self._pool_spawn('relay', self._attempt, id, envelope, attempts)
 
+    def _dispatch_first(self):
+        # Spawning may block on a full store pool, and the timetable may
+        # change in the meantime: the entry stays on it until it has been
+        # dispatched and is then removed by value.
+        entry = self.queued[0]
+        self._pool_spawn('store', self._dequeue, entry[1])
+        try:
+            self.queued.remove(entry)
+        except ValueError:
+            pass
+        self.queued_ids.discard(entry[1])
+
     def _check_ready(self, now):
-        last_i = 0
-        for i, entry in enumerate(self.queued):
-            timestamp, entry_id = entry
-            if now >= timestamp:
-                self._pool_spawn('store', self._dequeue, entry_id)
-                last_i = i+1
-            else:
-                break
-        if last_i > 0:
-            self.queued = self.queued[last_i:]
-            self.queued_ids = set([id for _, id in self.queued])
+        while self.queued and now >= self.queued[0][0]:
+            self._dispatch_first()
 
     def _wait_store(self):
         while True:
@@ -504,10 +507,8 @@ class Queue(Greenlet):
         self.wake.clear()
         self.queued_lock.acquire()
         try:
-            for entry in self.queued:
-                self._pool_spawn('store', self._dequeue, entry[1])
-            self.queued = []
-            self.queued_ids = set()
+            while self.queued:
+                self._dispatch_first()
         finally:
             self.queued_lock.release()
 
